@@ -99,11 +99,6 @@ func allPrims(s *km.Sem, ps ...km.Prim) km.SitePred {
 	}
 }
 
-// checkPrimOnPaths checks one prim at a site interprocedurally and returns ok/why.
-func checkPrimOnPaths(s *km.Sem, site ssa.Instruction, p km.Prim, roots map[*ssa.Function]bool) (bool, string) {
-	return s.HoldsOnAllPaths(site, allPrims(s, p), roots, 6)
-}
-
 func rootSet(fs []*ssa.Function) map[*ssa.Function]bool {
 	m := map[*ssa.Function]bool{}
 	for _, f := range fs {
